@@ -257,7 +257,13 @@ pub fn applicable(w: &World, t: usize, cmd: &Cmd) -> bool {
         }
         (TState::Idle, Cmd::StartReturn(o) | Cmd::StartTake(o)) => w.held(t).contains(o),
         // (a task that was sent ahead has its Go already: it went through as soon as the mutex was free)
-        (TState::AtPoint(site), Cmd::Go(_)) => w.early[t] || !(w.lock_held() && lock_sites.contains(site)),
+        (TState::AtPoint(site), Cmd::Go(_)) => {
+            if w.early[t] {
+                w.early_ready(t)
+            } else {
+                !(w.lock_held() && lock_sites.contains(site))
+            }
+        }
         (TState::AtCall { .. }, Cmd::Outcome(_)) => true,
         (TState::Pending { gate: Some(_) }, Cmd::Resume(_)) => true,
         (TState::Pending { gate: None }, Cmd::Poll) => true,
